@@ -14,7 +14,7 @@ use crate::{
 use super::{
     error::{Error, Result},
     locale::{InterpolOrLit, LocalesOrNamespaces},
-    parsed_value::{ParsedValue, ParsedValueSeed},
+    parsed_value::{DefaultLocales, ParsedValue, ParsedValueSeed},
     StringIndexer,
 };
 
@@ -398,7 +398,7 @@ impl Ranges {
         &self,
         values: &LocalesOrNamespaces,
         top_locale: &Key,
-        default_locale: &Key,
+        default_locale: DefaultLocales,
         path: &KeyPath,
     ) -> Result<()> {
         self.try_for_each_value(move |value| {
